@@ -198,6 +198,7 @@ def _calls_between(g, a: Node, b: Node) -> List[Node]:
 
 def r32(e: Engine, rep: Report):
     c = common.merged_class(e, QUEUE)
+    writers = common.owner_closure(e, QUEUE, QUEUED_WRITERS)
     for mname, m in sorted(c.methods.items()):
         writes = []
         for n in walk_own(m.node):
@@ -226,7 +227,9 @@ def r32(e: Engine, rep: Report):
                     writes.append(n)
         for w in writes:
             rep.evaluations += 1
-            rep.check(mname in QUEUED_WRITERS, 'R3.2', m.qname,
+            # (a private helper that only the enumerated writers call is
+            # part of them)
+            rep.check(mname in writers, 'R3.2', m.qname,
                       'writer of self.queued: ' + ' '.join(
                           ast.unparse(w).split())[:50],
                       'the timetable is modified outside its enumerated '
